@@ -29,9 +29,15 @@ def parseTXID (s : String) : Nat :=
   | some v => v
   | none => 0
 
-/-- the configured expressions of the suite: `^/pt/` passes through, `^/fw/` always forwards -/
-def isPassthrough (p : String) : Bool := "/pt/".toList.isPrefixOf p.toList
-def isAlwaysForward (p : String) : Bool := "/fw/".toList.isPrefixOf p.toList
+/-- the expressions are matched against the URL's path only, never its query string -/
+def pathOnly (p : String) : List Char := p.toList.takeWhile (· ≠ '?')
+
+/-- the configured expressions of the suite: `^/pt/` and `*.png` pass through, `^/fw/` and `*.fwd`
+    always forward -/
+def isPassthrough (p : String) : Bool :=
+  "/pt/".toList.isPrefixOf (pathOnly p) || ".png".toList.reverse.isPrefixOf (pathOnly p).reverse
+def isAlwaysForward (p : String) : Bool :=
+  "/fw/".toList.isPrefixOf (pathOnly p) || ".fwd".toList.reverse.isPrefixOf (pathOnly p).reverse
 
 def isReadMethod (m : String) : Bool := m == "GET" || m == "HEAD"
 
@@ -42,7 +48,7 @@ inductive Route where
 /-- `serveHTTP` -/
 def route (r : Req) : Route :=
   if isPassthrough r.path then .passthrough
-  else if r.method == "GET" && r.path == "/litefs/health" then .health
+  else if r.method == "GET" && pathOnly r.path == "/litefs/health".toList then .health
   else if isReadMethod r.method && !isAlwaysForward r.path then .read (match r.cookie with | some c => parseTXID c | none => 0)
   else .nonRead
 
